@@ -198,3 +198,83 @@ fn rs_il2_sq144() {
         q += 1;
     }
 }
+
+
+// ---------------------------------------------------------------------------
+// encode_error as glue around ecc_block: with ecc_block replaced by a recording
+// stub (count, first, last, xor of the data it is handed) the strided block
+// extraction, the unequal blocks of 144x144 and the interleaved write-back are
+// checked for a FULLY SYMBOLIC data vector of every multi-block size.
+// (ecc_block itself: rs_step_*, generators: rs_gen_*.)
+
+fn stub_ecc_block<T: Iterator<Item = u8>>(data: T, g: &[u8], ecc: &mut [u8]) {
+    let mut count: usize = 0;
+    let mut first: u8 = 0;
+    let mut last: u8 = 0;
+    let mut x: u8 = 0;
+    for a in data {
+        if count == 0 {
+            first = a;
+        }
+        last = a;
+        x ^= a.rotate_left((count % 8) as u32);
+        count += 1;
+    }
+    // g must be the generator for this block length and ecc the scratch register of k+1 cells
+    assert!(ecc.len() == g.len());
+    ecc[0] = (count & 0xFF) as u8;
+    ecc[1] = (count >> 8) as u8;
+    ecc[2] = first;
+    ecc[3] = last;
+    ecc[4] = x;
+}
+
+fn glue<const N: usize>(size: SymbolSize, idx: usize) {
+    let t = TABLE[idx];
+    assert!(t.data == N);
+    let b = t.blocks;
+    let k = t.ecc / b;
+    let data: [u8; N] = kani::any();
+    let ecc = encode_error(&data, size);
+    assert!(ecc.len() == t.ecc);
+    let mut q = 0;
+    while q < b {
+        // block q = data codewords q, q+b, q+2b, ...
+        let cnt = (N - q + b - 1) / b;
+        let mut x: u8 = 0;
+        let mut j = 0;
+        while j < cnt {
+            x ^= data[q + b * j].rotate_left((j % 8) as u32);
+            j += 1;
+        }
+        assert!(ecc[q] == (cnt & 0xFF) as u8 && ecc[q + b] == (cnt >> 8) as u8);
+        assert!(ecc[q + 2 * b] == data[q]);
+        assert!(ecc[q + 3 * b] == data[q + b * (cnt - 1)]);
+        assert!(ecc[q + 4 * b] == x);
+        q += 1;
+    }
+}
+
+macro_rules! glueh {
+    ($name:ident, $unwind:expr, $size:ident, $idx:expr, $n:expr) => {
+        #[kani::proof]
+        #[kani::unwind($unwind)]
+        #[kani::stub(ecc_block, stub_ecc_block)]
+        fn $name() {
+            assert!(VARIANTS[$idx] == SymbolSize::$size);
+            glue::<$n>(SymbolSize::$size, $idx);
+        }
+    };
+}
+glueh!(rs_glue_sq52, 206, Square52, 14, 204);
+glueh!(rs_glue_sq64, 282, Square64, 15, 280);
+glueh!(rs_glue_sq72, 370, Square72, 16, 368);
+glueh!(rs_glue_sq80, 458, Square80, 17, 456);
+glueh!(rs_glue_sq88, 578, Square88, 18, 576);
+glueh!(rs_glue_sq96, 698, Square96, 19, 696);
+glueh!(rs_glue_sq104, 818, Square104, 20, 816);
+glueh!(rs_glue_sq120, 1052, Square120, 21, 1050);
+glueh!(rs_glue_sq132, 1306, Square132, 22, 1304);
+glueh!(rs_glue_sq144, 1560, Square144, 23, 1558);
+glueh!(rs_glue_sq10, 8, Square10, 0, 3);
+glueh!(rs_glue_r16x48, 64, Rect16x48, 29, 49);
